@@ -41,8 +41,11 @@ GROUPS = {
         'hexasm::Directive': ['token', 'byteOffset'],
     }),
     'sim': ('hexsim.cpp', {
-        'hexsim::Processor': ['pc', 'areg', 'breg', 'oreg', 'memory', 'io', 'running', 'tracing', 'truncateInputs', 'cycles', 'maxCycles',
-                              'lastPC', 'instr', 'instrEnum', 'exitCode', 'debugInfo', 'debugInfoMap'],
+        'hexsim::Processor': ['pc', 'areg', 'breg', 'oreg', 'memory', 'io', 'tracing', 'truncateInputs', 'cycles', 'maxCycles',
+                              'lastPC', 'instr', 'instrEnum', 'exitCode', 'debugInfo',
+                              # known by name only while such a member exists at all (a change may legitimately do without it):
+                              ('running', lambda fields: any(t == 'bool' for n, t in fields if n not in ('tracing', 'truncateInputs'))),
+                              ('debugInfoMap', lambda fields: any('map<' in t for n, t in fields))],
         'hex::HexSimIO': ['in', 'out'],
     }),
 }
@@ -56,11 +59,12 @@ BY_PROPERTY = {
 
 
 def _members(idx, cls):
-    out = set()
+    out = {}
     for c in [cls] + idx.bases_of(cls):
         rec = idx.records.get(c)
         if rec is not None:
-            out.update(f.get('name') for f in rec.fields)
+            for f in rec.fields:
+                out[f.get('name')] = (f.get('type') or {}).get('qualType', '')
     return out
 
 
@@ -74,7 +78,13 @@ def missing(group):
             miss.append(cls + ' (class)')
             continue
         have = _members(idx, cls)
-        miss += ['%s::%s' % (cls, n) for n in names if n not in have]
+        for n in names:
+            if isinstance(n, tuple):
+                n, needed = n
+                if n not in have and needed(list(have.items())):
+                    miss.append('%s::%s' % (cls, n))
+            elif n not in have:
+                miss.append('%s::%s' % (cls, n))
     return miss
 
 
